@@ -16,6 +16,7 @@ const (
 	vhFaultEOF         // the connection drops and the transport notices (Connected() turns false)
 	vhFaultUndecodable // inbound data cannot be decoded: Receive fails, the connection itself stays up
 	vhFaultBurstDrop   // a burst of notifications larger than the buffers, then the connection drops
+	vhFaultRegress     // the server sends a session envelope with an earlier state
 )
 
 // vhCoopServer: a scripted transport whose peer is a well-behaved server that, after establishing the
@@ -75,6 +76,8 @@ func (t *vhCoopServer) Receive(ctx context.Context) (envelope, error) {
 			return &Session{Envelope: Envelope{ID: fid, From: srvNode, To: me}, State: SessionStateFinished}, nil
 		case vhFaultFailed:
 			return &Session{Envelope: Envelope{ID: fid, From: srvNode, To: me}, State: SessionStateFailed, Reason: &Reason{Code: 1, Description: "x"}}, nil
+		case vhFaultRegress:
+			return &Session{Envelope: Envelope{ID: fid, From: srvNode, To: me}, State: SessionStateAuthenticating}, nil
 		case vhFaultEOF:
 			t.down = true
 			return nil, io.EOF
@@ -110,7 +113,7 @@ func (t *vhCoopServer) Send(ctx context.Context, e envelope) error {
 }
 
 func HarnessC19Recover() {
-	fault := vhChoice("fault", 5) + 1
+	fault := vhChoice("fault", 6) + 1
 	var handled []*Message
 	gate := make(chan struct{})
 	parked := 0
